@@ -345,6 +345,7 @@ class StartRequests(Observer):
             if prev.get(ident) != name:
                 if prev.get(ident) == 'RUNNING':
                     self.lost_since[(inst.nick, inst.incarnation, ident)] = sim.now_us
+                    self._note_host_lost(sim, inst, ident)
                 prev[ident] = name
 
     def _check_sequence(self, sim, s, ns, app, procs, seqs, required, prules, arules, detail):
@@ -367,7 +368,10 @@ class StartRequests(Observer):
         # a restart of the application (RESTART_APPLICATION repair, stop then start) is not a distribution plan
         restarted = sim.now_us - self.stops.get((s.nick, s.incarnation, app), -10**12) < 90 * US or \
             sim.now_us - self.handler_plans.get((s.nick, s.incarnation, app), -10**12) < 90 * US
-        if t_dist is not None and t_op < t_dist and arules.get('managed') and not restarted:
+        # a user plan on the application accepted shortly before the DISTRIBUTION entry may still be unfolding
+        # (restart_application on a stopped application sends no stop request at all)
+        user_plan = t_op >= 0 and sim.now_us - t_op < 90 * US
+        if t_dist is not None and t_op < t_dist and arules.get('managed') and not restarted and not user_plan:
             a_seq = arules.get('start_sequence', 0)
             if a_seq == 0:
                 self.v('C03', 'unsequenced-application-started', dict(detail, app_start_sequence=0),
@@ -403,6 +407,33 @@ class StartRequests(Observer):
                 self.v('C03', 'request-after-required-failure', dict(detail, failed=q, strategy=strategy,
                                                                      failed_level=level, start_sequence=seq),
                        'request-after-required-failure:%s' % strategy)
+
+    def _note_host_lost(self, sim, inst, ident):
+        """ S sees the host of a start it requested leave RUNNING before the start ended: the process is given up,
+        which is a starting failure ("failed, timed out, host lost"). """
+        if not self.app_plans_only:
+            return
+        for r in self.requests:
+            if r['s'] != inst.nick or r['inc'] != inst.incarnation or r['target'] != ident or r.get('resolved') \
+                    or sim.now_us - r['t_us'] > 180 * US:
+                continue
+            q = r['ns']
+            if self.running_seen.get((inst.nick, inst.incarnation, q), -1) >= r['t_us']:
+                continue
+            if any(t >= r['t_us'] and state in (0, 40, 100, 200, 1000)
+                   for t, state, _e in self.history.get((inst.nick, inst.incarnation, q), ())):
+                continue
+            r['resolved'] = True
+            app = inst.supvisors.context.applications.get(q.split(':')[0])
+            proc = app.processes.get(q.split(':')[1]) if app else None
+            if proc is None:
+                continue
+            rules = proc.rules.serial()
+            self._probe('host_lost_during_start')
+            if rules['required'] and rules['starting_failure_strategy'] in ('ABORT', 'STOP'):
+                self.aborted[(inst.nick, inst.incarnation, app.application_name)] = \
+                    (r['t_us'], rules['start_sequence'], rules['starting_failure_strategy'], q)
+                self._probe('required_start_failure_host_lost')
 
     def _note_failure(self, sim, inst, ns):
         """ S has just handled (and published) a FATAL of ns: if S had requested it, this is a starting failure. """
